@@ -174,9 +174,10 @@ func (e *eraCtx) evalRows(r *Report, rows []row) {
 		if len(bad) == 0 {
 			r.okNT(rw.rule, rw.name, pos, fmt.Sprintf("%d height classes agree with the oracle; values: %s", n, strings.Join(cl, " / ")))
 		} else if !definite {
-			// every disagreement is "unknown": the abstraction lost the value (e.g. the height travels inside a struct);
-			// that is not evidence against the code
-			r.undecided(rw.rule, rw.name, pos, "the table could not be evaluated: "+strings.Join(bad, "; "))
+			// every disagreement is "unknown": the value is no longer a function of the height alone (it depends on data
+			// the table does not fix), or the abstraction lost it - the first is a finding, and the machinery is built so
+			// that the second does not happen for values carried through helpers, closures and local structs
+			r.viol(rw.rule, rw.name, pos, "not a function of the height class any more: "+strings.Join(bad, "; "))
 		} else {
 			r.viol(rw.rule, rw.name, pos, strings.Join(bad, "; "))
 		}
@@ -294,10 +295,7 @@ func (e *eraCtx) rowsC11(r *Report) []row {
 			func(h uint32) string { return fmt.Sprintf("%d", h) },
 			func(h uint32) string { return constArgs(e.grade(h, "S"), "github.com/pegnet/pegnet/modules/graderStake.NewGrader", 1) },
 			e.posOf("node.Pegnetd.GradeS", "NewGrader")},
-		{rule, "FCT burns applied iff height < V20HeightActivation",
-			func(h uint32) string { return liveStr(!a.isV20(h)) },
-			func(h uint32) string { return liveStr(e.syncBlock(h).Live("ApplyFactoidBlock")) },
-			e.posOf("node.Pegnetd.SyncBlock", "ApplyFactoidBlock")},
+		burnRow(e, rule),
 		{rule, "SPR winners paid iff height >= V20HeightActivation",
 			func(h uint32) string { return liveStr(a.isV20(h)) },
 			func(h uint32) string { return liveStr(e.syncBlock(h).Live("ApplyGradedSPRBlock")) },
@@ -511,4 +509,14 @@ func devPctLiterals(c *Ctx) []float64 {
 	}
 	_ = g
 	return out
+}
+
+// burnRow: the pFCT credit of an FCT burn is reachable iff height < V20HeightActivation - wherever the era gate sits
+// (in SyncBlock or inside ApplyFactoidBlock), judged by the liveness of the burn's history/credit statement.
+func burnRow(e *eraCtx, rule string) row {
+	a := e.a
+	return row{rule, "FCT burns credited iff height < V20HeightActivation",
+		func(h uint32) string { return liveStr(!a.isV20(h)) },
+		func(h uint32) string { return liveStr(e.syncBlock(h).Live("InsertFCTBurn")) },
+		e.posOf("node.Pegnetd.SyncBlock", "ApplyFactoidBlock")}
 }
